@@ -470,8 +470,20 @@ def D17():
     return f
 
 
+def _safe(fn):
+    def g():
+        try:
+            return fn()
+        except BaseException as e:  # the witness itself was stopped: that is a finding about the code under test
+            return [f"the witness could not complete: {type(e).__name__}: {str(e)[:200]}"]
+
+    g.__name__ = fn.__name__
+    g.__doc__ = fn.__doc__
+    return g
+
+
 ALL = {
-    k: v
+    k: _safe(v)
     for k, v in list(globals().items())
     if re.fullmatch(r"D\d+[a-c]?", k) and callable(v)
 }
